@@ -90,7 +90,7 @@ CHECKS = {
  "C16": dict(
    category="exploration", design_ref="DESIGN.md §3 C16",
    technique="exhaustive enumeration over programs (16 single-field structs = every field shape the derive macro distinguishes, one 16-field struct, all 12 shipped deriving structs) x presence/value vectors within k deviations of two baselines x both paragraph back-ends x update priors",
-   text="Programs: one struct per combination of mandatory/optional x default/renamed key x default/custom serialiser x default/custom deserialiser (16), a struct with all 16 shapes, and every deriving struct in the workspace (lossy control Source/Binary, apt Release/Source/Package, Buildinfo, Removal, copyright Header/Files/Licence paragraphs, DEP-3 PatchHeader, apt-sources Repository). For every presence/value vector within 2 (thorough 3) deviations of the all-mandatory and all-present baselines: to_paragraph lists exactly the present fields in declaration order under the configured names with values through the codecs, from_paragraph(to_paragraph(x)) == x, both back-ends agree; for <= 1 deviation also update_paragraph onto 5 prior contents (empty, own fields with other values, own fields interleaved with foreign fields/comments/odd spacing, every optional present, an unterminated paragraph holding only the later-declared half) on both back-ends (reads back equal, absent optionals removed, own fields once, foreign lines byte-identical in order), each mandatory field deleted and each field corrupted must give an error naming the field.",
+   text="Programs: one struct per combination of mandatory/optional x default/renamed key x default/custom serialiser x default/custom deserialiser (16), a struct with all 16 shapes, and every deriving struct in the workspace (lossy control Source/Binary, apt Release/Source/Package, Buildinfo, Removal, copyright Header/Files/Licence paragraphs, DEP-3 PatchHeader, apt-sources Repository). For every presence/value vector within 2 (thorough 3) deviations of the all-mandatory and all-present baselines: to_paragraph lists exactly the present fields in declaration order under the configured names with values through the codecs, from_paragraph(to_paragraph(x)) == x, both back-ends agree; for <= 1 deviation also update_paragraph onto 6 prior contents (empty, own fields with other values, own fields interleaved with foreign fields/comments/odd spacing, every optional present, an unterminated paragraph holding only the later-declared half, every own field repeated) on both back-ends (reads back equal, absent optionals removed, own fields once, foreign lines byte-identical in order), each mandatory field deleted and each field corrupted must give an error naming the field.",
    note="Field tables (names, valid/invalid raw values, comparison mode) are hand-written from the struct definitions; hash-ordered collections carry one element."),
  "C17": dict(
    category="exploration", design_ref="DESIGN.md §3 C17",
